@@ -1,6 +1,7 @@
 """C12 - schedulers are work-conserving, non-preemptive, rate-exact, per-flow FIFO; counters and
 Monitor samples equal the packets waiting or in transmission."""
 from harness import sched as S
+from mc import explore
 
 PROPERTY = "C12"
 CLAUSES = ["C12.noraise", "C12.once", "C12.time", "C12.fifo", "C12.counters", "C12.inservice", "C12.monitor"]
@@ -82,9 +83,11 @@ def plan(tier, seed):
     for kind, tabs in tables.items():
         cfgs.append(dict(sched=kind, table=tabs[0], rate=(8000 if kind == "DRR" else 8), flows=[0, 1],
                          sizes=([1000, 2000] if kind == "DRR" else [1, 2]), N=0, gaps="G3", order=0, map="id", endurance=3000))
+    # every configuration once more with long fixed workloads (state that only breaks after hundreds of packets)
+    nlong = explore.add_long(cfgs, 300 if quick else 800, skip=lambda c: c.get("endurance"))
     return {"cfgs": cfgs, "budget": None,
-            "bound": "one fixed workload of 3000 packets per scheduler; N<=%d full menu (21/packet), N<=%d reduced menu%s; 6 schedulers x tables x rates x creation order; "
-                     "monitor in/excl; flow->class maps identity/all-to-one/swap" % (nfull, nfull + 1, "" if quick else ", N<=6 on {same,+1}; 3 flows N<=4")}
+            "bound": ("%d long fixed workloads (periodic arrival patterns); " % nlong) + ("one fixed workload of 3000 packets per scheduler; N<=%d full menu (21/packet), N<=%d reduced menu%s; 6 schedulers x tables x rates x creation order; "
+                     "monitor in/excl; flow->class maps identity/all-to-one/swap" % (nfull, nfull + 1, "" if quick else ", N<=6 on {same,+1}; 3 flows N<=4"))}
 
 
 class Fixed:
